@@ -424,6 +424,7 @@ def validate_trace(run, module, chunks, pid=None, env=None, par=None, heap_gb=3,
         for c in chunks:
             with open(c, "rb") as f:
                 for line in f:
+                    line = re.sub(rb"0xc[0-9a-f]{6,12}", b"0xPTR", line)      # "{{.}}" prints the address of an embedded pointer
                     acc = (acc + int.from_bytes(hashlib.blake2b(line, digest_size=8).digest(), "big")) & ((1 << 64) - 1)
                     n += 1
         with open(FINGERPRINT, "a") as f:
